@@ -83,14 +83,14 @@ def jobs(ctx):
     props = ['C01', 'C03', 'C06', 'C12', 'C05', 'C20']
     out = []
 
-    def job(name, b, src, enforce, replace, canaries=1, expect=(r'postcondition',), entry='harness'):
+    def job(name, b, src, enforce, replace, canaries=1, expect=(r'postcondition',), entry='harness', hpre=()):
         bl = b if isinstance(b, list) else [b]
         # a new private helper the body was refactored into (same file) is extracted with the unit's rules and verified inline (vf.cxx2c.auto_helpers)
         try:
             from vf.cxx2c import auto_helpers
-            declared = set(re.findall(r'^\s*(?:static\s+|inline\s+)*(?:unsigned\s+|const\s+)*\w+[\s\*]+(\w+)\s*\(', src, flags=re.M)) | set(re.findall(r'#define\s+(\w+)\(', src))
-            defs, hb = auto_helpers(repo, bl[0].file, None, src, declared, lambda hn, ht, refs: rw(hn, refs=['e', 'callback', 'caller'] + refs, omethods=['CallInline', 'DecRef', 'Here', 'StoreCallback', 'Submit']).rewrite(ht),
-                                    ctype=lambda t: 'Core*' if re.sub(r'<.*>', '', t).split('::')[-1].rstrip('*&') in ('auto', 'Core', 'BaseCore', 'InlineCore', 'UniqueCore', 'SharedCore', 'ResultCore') and t[-1:] in '*&' else None)
+            declared = set(re.findall(r'^\s*(?:static\s+|inline\s+)*(?:unsigned\s+|const\s+)*(?!(?:return|else|case|goto)\b)\w+[\s\*]+(\w+)\s*\(', src, flags=re.M)) | set(re.findall(r'#define\s+(\w+)\(', src))
+            defs, hb = auto_helpers(repo, bl[0].file, None, src, declared, lambda hn, ht, refs: rw(hn, refs=['e', 'callback', 'caller'] + refs, omethods=['CallInline', 'DecRef', 'Here', 'StoreCallback', 'Submit'], pre=[(a_, b_, 0) for a_, b_, _ in hpre]).rewrite(ht),
+                                    ctype=lambda t: 'Core*' if re.sub(r'<.*>', '', t).split('::')[-1].rstrip('*&') in ('auto', 'Core', 'BaseCore', 'InlineCore', 'UniqueCore', 'SharedCore', 'ResultCore') and t[-1:] in '*&' else 'Res' if re.match(r'^Result<[^<>]*>$', t) else None)
             if defs:
                 m_sig = re.search(r'^[^\n;]*\b%s\s*\([^\n;{]*\)\s*$' % re.escape(enforce), src, flags=re.M)
                 if m_sig:
@@ -438,7 +438,7 @@ __CPROVER_ensures(%s)
 {''' % (waits, waits, '(g.moves == (g_ref == 1 ? 1 : 0) && g.copies == (g_ref == 1 ? 0 : 1))' if rv else '(g.moves == 0 && g.copies == 1)') + c + '''}
 void harness(void) { ghost_reset(); Handle* f; F(f); if (g.moves) VF_CANARY("last holder moves"); else VF_CANARY("reads"); }
 '''
-        job('SharedFuture.' + nm, b, src, 'F', ['WaitReady', 'READY', 'GetRef'], canaries=2 if rv else 1)
+        job('SharedFuture.' + nm, b, src, 'F', ['WaitReady', 'READY', 'GetRef'], canaries=2 if rv else 1, hpre=sf_pre)
     b = find_body(repo, F_SF, r'void\s+Detach\s*\(\s*\)\s*&&\s*noexcept', 'SharedFutureBase::Detach', within=WS)
     c = rw('SharedFuture::Detach', pre=sf_pre).rewrite(b.text)
     src = sf_common + '''void F(Handle* self)
